@@ -62,3 +62,25 @@ Proof.
     now apply rok_of.
   - cbn. split; [exact I|]. split; [|exact I]. exact Hr.
 Qed.
+
+(* for a pattern written in ASCII (escapes such as \x{e9} included) the parser theorem also gives
+   [wfe]: nothing is assumed about the tree *)
+Theorem ascii_pattern_vm_follows_reference :
+  forall (re : list nat), Forall (fun b => b < 128) re ->
+  forall (e : expr) (st : pst), parse re = POk (e, st) ->
+  condok true e ->
+  forall (p : prog) (n : nat), regex_new (bs_of st) e = inr (RFancy p n) ->
+  forall cs : list (list nat), valid_chars cs ->
+  forall cx : ctx, c_text cx = concat cs -> (N.of_nat (length (concat cs)) < usize_max)%N ->
+  bnd cs (c_pos cx) ->
+  forall (max_st : nat) (lim : option N) (fuelv : nat),
+  match fst (vm_run cx p max_st lim fuelv) with
+  | RMatch sv => search_list cx e (S (length (c_text cx))) = Some (firstn (2 * S (ngroups e)) sv)
+  | RNoMatch => search_list cx e (S (length (c_text cx))) = None
+  | RPanic => False
+  | _ => True
+  end.
+Proof.
+  intros re Ha e st Hp Hc. apply (pattern_vm_follows_reference re e st Hp); auto.
+  eapply parse_wfe_ascii; eauto.
+Qed.
